@@ -442,7 +442,9 @@ def run(tier: str) -> int:
     rebuilds = [(i, b, "rebuild") for i, b in (multi[:4] if tier == "quick" else multi)]
     names = [(9200, [], "named", "novalidate")]
     names += [(9100 + i, [], "named", "shared:" + k) for i, k in enumerate(("constant", "string", "alias", "struct", "struct-message", "message-struct"))]
-    names += [(9000 + i, [], "named", n) for i, n in enumerate(("type_id", "type_name", "type_hash", "type_source", "type_def", "type_size", "hexdump", "size_type"))]
+    names += [(9000 + i, [], "named", n) for i, n in enumerate(("type_id", "type_name", "type_hash", "type_source", "type_def", "type_size", "hexdump", "size_type",
+                                                                             # words another target language reserves (legal in Python, C and JavaScript)
+                                                                             "end", "otherwise", "persistent"))]
     res = core.pmap(check_batch, batches + rebuilds + names)
     core.close_pool()
     totals: Dict[str, int] = {}
